@@ -51,7 +51,7 @@ def _split_steps(f, delim: str):
     """Normalised description of a splitter: (empty-guard, parts, emitted sequence)."""
     ren = {delim: "DELIM"}
     parts = find("parts = text.split(M_d)", f)
-    guard = [n for n in walk_no_nested(f) if isinstance(n, ast.If) and unparse(n.test) == "not text" and len(n.body) == 1 and isinstance(n.body[0], ast.Return) and unparse(n.body[0].value) == "[]"]
+    guard = [n for n in walk_no_nested(f) if isinstance(n, ast.If) and eqv(n.test, "not text") and len(n.body) == 1 and isinstance(n.body[0], ast.Return) and eqv(n.body[0].value, "[]")]
     # the emitted sequence: the BinOp list expression mentioning parts[:-1]
     emitted = None
     for n in ast.walk(f):
@@ -99,11 +99,11 @@ def check(ctx):
         ok = s["tail"] == want_tail and s["head"] == "[X + DELIM for X in parts[:-1]]"
         ctx.ob("SIB.split.no-empty-tail", f, f"{nm}: lines = [p + d for p in parts[:-1]] + (parts[-1:] unless that last part is empty)", ok, "" if ok else f"emits head={s['head']} tail={s['tail']}: a text ending with the delimiter yields an empty trailing element, or (endswith test) a non-empty last part that overlaps the delimiter is lost")
     # the delimiter branch of file_to_blocks reads the whole text; the other iterates the file
-    ok = bool(find("text = f.read()", ftb)) and any(isinstance(n, ast.For) and unparse(n.iter) == "f" for n in walk_no_nested(ftb))
+    ok = bool(find("text = f.read()", ftb)) and any(isinstance(n, ast.For) and eqv(n.iter, "f") for n in walk_no_nested(ftb))
     ctx.ob("SIB.split.file-branches", ftb, "custom delimiter: split the whole text; otherwise iterate the file's own lines", ok)
     # include_path pairs every line with the path
-    gens = [n for n in ast.walk(ftb) if isinstance(n, ast.IfExp) and unparse(n.test) == "include_path"]
-    ok = len(gens) == 2 and all(unparse(g.body) == "(line, lazy_file.path)" and unparse(g.orelse) == "line" for g in gens)
+    gens = [n for n in ast.walk(ftb) if isinstance(n, ast.IfExp) and eqv(n.test, "include_path")]
+    ok = len(gens) == 2 and all(eqv(g.body, "(line, lazy_file.path)") and eqv(g.orelse, "line") for g in gens)
     ctx.ob("SIB.split.include-path", ftb, "(line, path) if include_path else line -- in both branches", ok)
 
     # ---------------- TAB.newlines
@@ -118,7 +118,7 @@ def check(ctx):
     l1, l2 = newline_lists(rt), newline_lists(dec)
     ok = len(l1) == 1 and len(l2) == 1 and l1[0][1] == l2[0][1] == frozenset([None, "", "\n", "\r", "\r\n"])
     ctx.ob("TAB.newlines", rt, "universal-newline delimiters: the same list {None,'','\\n','\\r','\\r\\n'} in read_text and decode", ok, "" if ok else f"read_text {sorted(map(repr, l1[0][1])) if l1 else None} vs decode {sorted(map(repr, l2[0][1])) if l2 else None}")
-    ok = bool(find("lines = io.StringIO(text, newline=line_delimiter)", dec)) and any(unparse(r.value) == "list(lines)" for r in returns(dec))
+    ok = bool(find("lines = io.StringIO(text, newline=line_delimiter)", dec)) and any(eqv(r.value, "list(lines)") for r in returns(dec))
     ctx.ob("TAB.newlines.decode", dec, "decode: universal newlines are split by io.StringIO(text, newline=line_delimiter)", ok)
     ok = bool(find("text = block.decode(encoding, errors)", dec))
     ctx.ob("DELEG.decode", dec, "decode: text = block.decode(encoding, errors)", ok)
@@ -141,19 +141,19 @@ def check(ctx):
     last = find("length.append(size - off[-1])", rb)
     ok = len(last) == 1 and not in_subtree(last[0][0], wl) and last[0][0].lineno > wl.lineno and dominates(rb, wl, last[0][0])
     ctx.ob("ABS.tiling.last", rb, "after the loop: length.append(size - off[-1]) (lengths telescope to size - off[0])", ok, "" if ok else "the final block does not extend to the end of the file")
-    ok = unparse(wl.test) == "size - place > blocksize1 * 2 - 1"
+    ok = eqv(wl.test, "size - place > blocksize1 * 2 - 1")
     ctx.ob("ABS.tiling.bound", wl, "loop continues while more than 2*blocksize1 - 1 bytes remain (every offset stays < size)", ok)
     z1 = find("off[0] = 1", rb)
     z2 = find("length[0] -= 1", rb)
-    ok = len(z1) == 1 and len(z2) == 1 and control_equivalent(rb, z1[0][0], z2[0][0]) and any(unparse(e) == "not_zero" and pol for e, pol in cfg_of(rb).facts(z1[0][0])) and dominates(rb, last[0][0], z2[0][0]) if last else False
+    ok = len(z1) == 1 and len(z2) == 1 and control_equivalent(rb, z1[0][0], z2[0][0]) and any(eqv(e, "not_zero") and pol for e, pol in cfg_of(rb).facts(z1[0][0])) and dominates(rb, last[0][0], z2[0][0]) if last else False
     ctx.ob("ABS.tiling.not-zero", rb, "not_zero: off[0] = 1 together with length[0] -= 1 (the end of the first block does not move)", ok)
     ok = bool(find("offsets.append(off)", rb)) and bool(find("lengths.append(length)", rb)) and control_equivalent(rb, find("offsets.append(off)", rb)[0][0], find("lengths.append(length)", rb)[0][0])
     ctx.ob("ABS.tiling.collect", rb, "offsets.append(off) and lengths.append(length) together, once per file", ok)
     e1_ = find("offsets.append([])", rb)
     e2_ = find("lengths.append([])", rb)
-    ok = len(e1_) == 1 and len(e2_) == 1 and control_equivalent(rb, e1_[0][0], e2_[0][0]) and any(unparse(e) == "size == 0" and pol for e, pol in cfg_of(rb).facts(e1_[0][0]))
+    ok = len(e1_) == 1 and len(e2_) == 1 and control_equivalent(rb, e1_[0][0], e2_[0][0]) and any(eqv(e, "size == 0") and pol for e, pol in cfg_of(rb).facts(e1_[0][0]))
     ctx.ob("ABS.tiling.empty-file", rb, "empty file: no offsets and no lengths", ok)
-    div = [n for n in ast.walk(rb) if isinstance(n, ast.BinOp) and isinstance(n.op, ast.Div) and unparse(n) == "size / (size // blocksize)"]
+    div = [n for n in ast.walk(rb) if isinstance(n, ast.BinOp) and isinstance(n.op, ast.Div) and eqv(n, "size / (size // blocksize)")]
     ok = len(div) == 1
     if ok:
         facts = {(unparse(e), pol) for e, pol in cfg_of(rb).facts(enclosing_stmt(div[0]))}
@@ -163,12 +163,12 @@ def check(ctx):
     ctx.ob("ABS.tiling.divisor.else", rb, "otherwise blocksize1 = blocksize", ok)
     none_off = find("offsets = [[0]] * len(paths)", rb)
     none_len = find("lengths = [[None]] * len(paths)", rb)
-    ok = len(none_off) == 1 and len(none_len) == 1 and any(unparse(e) == "blocksize is None" and pol for e, pol in cfg_of(rb).facts(none_off[0][0]))
+    ok = len(none_off) == 1 and len(none_len) == 1 and any(eqv(e, "blocksize is None") and pol for e, pol in cfg_of(rb).facts(none_off[0][0]))
     ctx.ob("ABS.tiling.whole-file", rb, "blocksize None: one block (offset 0, length None) per file", ok)
 
     # ---------------- DELEG.blocks
-    outer = next((n for n in walk_no_nested(rb) if isinstance(n, ast.For) and unparse(n.iter) == "zip(paths, offsets, lengths)"), None)
-    ok = outer is not None and unparse(outer.target) == "(path, offset, length)"
+    outer = next((n for n in walk_no_nested(rb) if isinstance(n, ast.For) and eqv(n.iter, "zip(paths, offsets, lengths)")), None)
+    ok = outer is not None and eqv(outer.target, "(path, offset, length)")
     ctx.ob("DELEG.blocks.zip-files", rb, "for path, offset, length in zip(paths, offsets, lengths)", ok)
     dr = [c for c in calls(rb, "delayed_read")]
     ok = len(dr) == 1 and bool(find("delayed_read = delayed(read_block_from_file)", rb))
@@ -176,7 +176,7 @@ def check(ctx):
         c = dr[0]
         ok = [unparse(a) for a in c.args] == ["OpenFile(fs, path, compression=compression)", "o", "l", "delimiter"] and unparse(kwarg(c, "dask_key_name")) == "key"
         comp = getattr(c, "_parent", None)
-        ok = ok and isinstance(comp, ast.ListComp) and unparse(comp.generators[0].target) == "(o, key, l)" and unparse(comp.generators[0].iter) == "zip(offset, keys, length)"
+        ok = ok and isinstance(comp, ast.ListComp) and eqv(comp.generators[0].target, "(o, key, l)") and eqv(comp.generators[0].iter, "zip(offset, keys, length)")
     ctx.ob("DELEG.blocks.read-args", rb, "delayed_read(OpenFile(fs, path, compression=compression), o, l, delimiter, dask_key_name=key) for o, key, l in zip(offset, keys, length)", ok, "" if ok else "offset, length or delimiter do not reach the block reader as computed")
     ok = bool(find("keys = [f'read-block-{o}-{token}' for o in offset]", rb)) and bool(find("token = tokenize(fs_token, delimiter, path, fs.ukey(path), compression, offset)", rb))
     ctx.ob("TOKFLOW.block-keys", rb, "keys = read-block-{o}-{tokenize(fs_token, delimiter, path, ukey, compression, offset)}", ok)
@@ -191,8 +191,8 @@ def check(ctx):
     ok = len(rbc) == 1
     if ok:
         c = rbc[0]
-        ok = unparse(c.args[0]) == "urlpath" and unparse(kwarg(c, "delimiter")) == "linedelimiter.encode() if linedelimiter is not None else b'\\n'" and unparse(kwarg(c, "blocksize")) == "blocksize" and const(kwarg(c, "sample")) is False and unparse(kwarg(c, "compression")) == "compression" and unparse(kwarg(c, "include_path")) == "include_path"
-        ok = ok and any(unparse(e) == "blocksize is None" and pol is False for e, pol in cfg_of(rt).facts(enclosing_stmt(c)))
+        ok = eqv(c.args[0], "urlpath") and unparse(kwarg(c, "delimiter")) == "linedelimiter.encode() if linedelimiter is not None else b'\\n'" and unparse(kwarg(c, "blocksize")) == "blocksize" and const(kwarg(c, "sample")) is False and unparse(kwarg(c, "compression")) == "compression" and unparse(kwarg(c, "include_path")) == "include_path"
+        ok = ok and any(eqv(e, "blocksize is None") and pol is False for e, pol in cfg_of(rt).facts(enclosing_stmt(c)))
     ctx.ob("DELEG.text.read-bytes", rt, "read_text -> read_bytes(urlpath, delimiter=<encoded line delimiter or b'\\n'>, blocksize=blocksize, sample=False, ...)", ok)
     dd = find("[delayed(decode)(b, encoding, errors, linedelimiter) for b in concat(raw_blocks)]", rt)
     ok = len(dd) == 1 and bool(find("raw_blocks = o[1]", rt))
@@ -206,21 +206,21 @@ def check(ctx):
     ld = find("linedelimiter = None", rt)
     ok = len(nl) == 1 and len(ld) == 1 and control_equivalent(rt, nl[0][0], ld[0][0]) and nl[0][0].lineno < ld[0][0].lineno and bool(find("newline = ''", rt))
     ctx.ob("DELEG.text.newline", rt, "universal delimiters are handed to open(newline=...) and cleared; custom ones use newline='' and are split by file_to_blocks", ok)
-    pf = [c for c in calls(rt, "partial") if c.args and unparse(c.args[0]) == "file_to_blocks"]
+    pf = [c for c in calls(rt, "partial") if c.args and eqv(c.args[0], "file_to_blocks")]
     ok = len(pf) == 2 and all([unparse(a) for a in c.args] == ["file_to_blocks", "include_path"] and unparse(kwarg(c, "delimiter")) == "linedelimiter" for c in pf)
     ctx.ob("DELEG.text.file-to-blocks", rt, "partial(file_to_blocks, include_path, delimiter=linedelimiter) in both groupings", ok)
     # ---------------- ABS.files-partition
-    fl = next((n for n in walk_no_nested(rt) if isinstance(n, ast.For) and unparse(n.iter) == "range(0, len(files), files_per_partition)"), None)
-    ok = fl is not None and bool(find("block_files = files[start:start + files_per_partition]", fl)) and unparse(fl.target) == "start"
+    fl = next((n for n in walk_no_nested(rt) if isinstance(n, ast.For) and eqv(n.iter, "range(0, len(files), files_per_partition)")), None)
+    ok = fl is not None and bool(find("block_files = files[start:start + files_per_partition]", fl)) and eqv(fl.target, "start")
     ctx.ob("ABS.files-partition", rt, "for start in range(0, len(files), n): files[start:start + n] (groups tile the file list)", ok)
     ok = bool(find("delayed(concat)(delayed(map)(partial(file_to_blocks, include_path, delimiter=linedelimiter), block_files))", rt))
     ctx.ob("ABS.files-partition.concat", rt, "a group's lines are the concatenation of its files' lines in order", ok)
-    excl = [n for n in walk_no_nested(rt) if isinstance(n, ast.If) and unparse(n.test) == "blocksize is not None and files_per_partition is not None" and any(isinstance(b, ast.Raise) for b in n.body)]
+    excl = [n for n in walk_no_nested(rt) if isinstance(n, ast.If) and eqv(n.test, "blocksize is not None and files_per_partition is not None") and any(isinstance(b, ast.Raise) for b in n.body)]
     ctx.ob("ABS.files-partition.exclusive", rt, "blocksize and files_per_partition are mutually exclusive (raise)", bool(excl))
     # ---------------- block boundaries are found by a context-free search (fsspec.utils.read_block): exact only for delimiters that cannot overlap themselves
     rb_calls = [c for c in calls(rbf, "read_block")]
     imp = by.imports.get("read_block")
-    if len(rb_calls) == 1 and imp == "fsspec.utils.read_block" and unparse(rb_calls[0]) == "read_block(f, off, bs, delimiter)":
+    if len(rb_calls) == 1 and imp == "fsspec.utils.read_block" and eqv(rb_calls[0], "read_block(f, off, bs, delimiter)"):
         guards = [n for n in ast.walk(rb) if isinstance(n, ast.Raise) and any("delimiter" in unparse(t.test) and "overlap" in unparse(t.test) for t in [p for p in [getattr(n, "_parent", None)] if isinstance(p, ast.If)])]
         ctx.ob("ALG.boundary.context-free", rbf, "read_block(f, off, bs, delimiter): the boundary is the next occurrence of the delimiter after an arbitrary offset", bool(guards), "" if guards else "for a self-overlapping delimiter the occurrence found from an arbitrary offset need not be one that a left-to-right split uses: read_text returns different lines for different block sizes")
     else:
